@@ -11,7 +11,12 @@ the Lean `maskBound` (driver Share), (b) over N independently seeded runs with t
 mask = opened value − secret-dependent part must span the bit length the model predicts
 (max within [B/8·2^s, C·B·2^s + slack]) and the opened values must be pairwise distinct (multiplicative
 blinding: distinct and non-zero for non-zero input, exactly 0 for zero input), (c) the low bit of the
-opened values is balanced (two-sided binomial test at 1e-9).
+opened values is balanced (two-sided binomial test at 1e-9), (d) SHARE level (zero_test_views): for every value opened
+inside is_zero_public / reciprocal the shares b_i handed to Runtime.output by ALL parties are compared with the products of
+the operand shares (a_i*r_i resp. r_i*s_i, logged by sharemon): the residual must be a fresh, non-zero sharing of zero of
+degree <= 2t (theorem rerandomized_shares_view); a zero residual means the product polynomial itself is opened
+(theorem product_shares_distinguish) and the oracle then runs the single-party attack (factor the quadratic, m=3, t=1) to
+exhibit the candidates a party computes for another party's secret.  This found the defect repaired by repo commit 4c3ba5b.
 """
 import math
 import os
@@ -25,10 +30,12 @@ import common
 LEVEL = 'other'
 LEAN_MODULES = ['MpycV.Props.C18']
 LEAN_NAMESPACES = ['MpycV.C18']
-REQUIRED_THEOREMS = ['mask_sd', 'low_bits_perfect', 'mult_blinding', 'prss_mask_component']
+REQUIRED_THEOREMS = ['mask_sd', 'low_bits_perfect', 'mult_blinding', 'prss_mask_component', 'rerandomized_shares_view',
+                     'product_shares_distinguish']
 RULE = ('case = one opening site (sgn, trunc, lsb, _mod, to_bits, is_zero_public, reciprocal) x configuration (m, t, PRSS '
-        'on/off, sec_param k in {8, 30}, bit length l) x secret input, repeated over N seeds; distinct = (site, cfg, input); '
-        'non-trivial = t >= 1')
+        'on/off, sec_param k in {8, 30}, bit length l) x secret input, repeated over N seeds; plus share-level view cases: '
+        '(is_zero_public | reciprocal) x type in {SecInt(16), SecFld(8191), SecFld(2^61-1)} (small / medium / large relative '
+        'to k) x the same configurations x two secrets; distinct = (site, cfg, input); non-trivial = t >= 1')
 EXPLANATION = ('PROVED (Lean): the statistical-distance / perfect-masking lemmas for additive masks, the bijection behind '
                'multiplicative blinding, the existence of a PRSS key unknown to any coalition of <= t parties, and the lower '
                'bound on the rounded mask range the code computes. TIED: mask bounds requested and derived by the real code vs '
@@ -125,6 +132,171 @@ def run_site(site, a_val, l, f, m, t, no_prss, k, seed):
     with sharemon.ShareMonitor(net, record_results=False) as mon:
         res = net.run(site_program(site, a_val, l, f))
     return net, mon, res
+
+
+# ---------------------------------------------------------------------------------------------------------
+# zero tests / reciprocal: the SHARES of the opened value are part of the coalition's view
+# ---------------------------------------------------------------------------------------------------------
+KEY_VIEW = 'C18-zero-test-product-not-rerandomized'
+VIEW_TYPES = [('int', 16), ('fld', 8191), ('fld', 2**61 - 1)]
+
+
+def _sqrt_mod(n, p):
+    """Tonelli-Shanks (independent of the repo); returns None for non-residues"""
+    n %= p
+    if n == 0:
+        return 0
+    if pow(n, (p - 1) // 2, p) != 1:
+        return None
+    if p % 4 == 3:
+        return pow(n, (p + 1) // 4, p)
+    q, s_ = p - 1, 0
+    while q % 2 == 0:
+        q //= 2
+        s_ += 1
+    z = 2
+    while pow(z, (p - 1) // 2, p) != p - 1:
+        z += 1
+    m_, c, t_, r = s_, pow(z, q, p), pow(n, q, p), pow(n, (q + 1) // 2, p)
+    while t_ != 1:
+        i, t2 = 0, t_
+        while t2 != 1:
+            t2 = t2 * t2 % p
+            i += 1
+        b = pow(c, 1 << (m_ - i - 1), p)
+        m_, c, t_, r = i, b * b % p, t_ * b * b % p, r * b % p
+    return r
+
+
+def attack_t1(p, shares_b, i, a_i, r_i):
+    """What party i (x-coordinate i+1) learns for t = 1, m = 3 from the three opened shares of b = a*r when they are the
+    plain products: P(X) = A(X)R(X) with A, R linear; A(i+1) = a_i and R(i+1) = r_i known.  Returns the candidates for a."""
+    xs = [1, 2, 3]
+    # coefficients of the quadratic through the three points (Lagrange, mod p)
+    inv = lambda v: pow(v % p, p - 2, p)
+    c0 = c1 = c2 = 0
+    for j in range(3):
+        k, l = [u for u in range(3) if u != j]
+        d = inv((xs[j] - xs[k]) * (xs[j] - xs[l]))
+        w = shares_b[j] * d % p
+        c2 = (c2 + w) % p
+        c1 = (c1 - w * (xs[k] + xs[l])) % p
+        c0 = (c0 + w * xs[k] * xs[l]) % p
+    if c2 == 0:
+        return None
+    disc = _sqrt_mod((c1 * c1 - 4 * c2 * c0) % p, p)
+    if disc is None:
+        return None
+    roots = {(-c1 + disc) * inv(2 * c2) % p, (-c1 - disc) * inv(2 * c2) % p}
+    x = i + 1
+    cands = []
+    for rho in roots:                       # A(X) = a1 (X - rho), A(x) = a_i
+        if (x - rho) % p == 0:
+            continue
+        a1 = a_i * inv(x - rho) % p
+        a0 = -a1 * rho % p
+        r1 = c2 * inv(a1) % p if a1 else None
+        other = [u for u in roots if u != rho] or [rho]
+        if r1 is not None and r1 * (x - other[0]) % p == r_i % p:   # consistent with the own share of r
+            cands.append(a0)
+    return cands
+
+
+def view_program(kind, tspec, a_val):
+    async def prog(mpc):
+        T = mpc.SecInt(tspec[1]) if tspec[0] == 'int' else mpc.SecFld(tspec[1])
+        a = mpc.input(T(a_val), senders=0)
+        sh = await mpc.gather(a)
+        if kind == 'is_zero_public':
+            res = bool(await mpc.is_zero_public(a))
+        else:
+            res = int(await mpc.output(mpc.reciprocal(a)))
+        return int(sh.value), int(T.field.modulus), res
+    return prog
+
+
+def view_case(kind, tspec, a_val, m, t, no_prss, k, seed):
+    """Returns (message or None, details).  For every value opened inside the zero test / reciprocal the parties hand
+    shares b_i to Runtime.output; with the operand shares x_i, y_i of the product being opened (a_i, r_i resp. r_i, s_i)
+    the residual Z_i = b_i - x_i*y_i must be a FRESH non-zero sharing of zero: otherwise the opened degree-2t polynomial
+    is the product polynomial A(X)R(X), whose roots together with its own shares A(i), R(i) give a party the secret."""
+    net = SimNet(m, t, no_prss=no_prss, seed=seed, sched=Scheduler(seed, 'random'), sec_param=k, max_steps=1_000_000)
+    with sharemon.ShareMonitor(net, record_results=False) as mon:
+        res = net.run(view_program(kind, tspec, a_val))
+    p = res[0][1]
+    a_sh = [r[0] for r in res]
+    per_party = []
+    for i in range(m):
+        evs = [e for e in mon.events[i] if e[1] == kind]
+        recs, last = [], None
+        for e in evs:
+            if e[0] == 'rand':
+                last, used = e[2], 0
+            elif e[0] == 'open' and last is not None and e[3] and e[3][0] is not None:
+                if len(last) == 2 and used == 0:
+                    recs.append(('rs', e[2], e[3][0], last[0] * last[1] % p))
+                else:
+                    recs.append(('b', e[2], e[3][0], a_sh[i] * last[0] % p))
+                used += 1
+        per_party.append(recs)
+    n = len(per_party[0])
+    if n == 0 or any(len(r) != n for r in per_party):
+        return f'{kind}: could not align the openings of the parties ({[len(r) for r in per_party]})', {}
+    resid = []
+    for j in range(n):
+        what = per_party[0][j][0]
+        z = [(per_party[i][j][2] - per_party[i][j][3]) % p for i in range(m)]
+        thr = per_party[0][j][1]
+        pts = [(i + 1, z[i]) for i in range(m)]
+        if sharemon.interpolate_at(pts[:2 * t + 1], 0, p) != 0 or not sharemon.consistent(z, 2 * t, p):
+            return (f'{kind}: opened shares of {what} minus the product of the operand shares is not a sharing of 0 of degree '
+                    f'<= 2t: {z}'), {'residual': z}
+        if t >= 1 and all(v == 0 for v in z):
+            det = {'opening': what, 'index': j, 'threshold': thr}
+            extra = ''
+            if what == 'b' and t == 1 and m == 3:
+                r2 = [e for e in mon.events[2] if e[1] == kind and e[0] == 'rand'][-1][2][0]
+                cands = attack_t1(p, [per_party[i][j][2] for i in range(3)], 2, a_sh[2], r2)
+                det['party2_candidates_for_secret'] = cands
+                extra = (f'; party 2 (not the input party) alone narrows the secret input {a_val % p} of party 0 down to the '
+                         f'candidates {cands}')
+            return (f'{kind}: the shares of {what} opened (threshold {thr}) are exactly the products of the parties\' shares: '
+                    f'the degree-2t product polynomial is opened without re-randomisation, every party can factor it and '
+                    f'learn the secret operand' + extra), det
+        resid.append(tuple(z))
+    if t >= 1 and len(set(resid)) != len(resid):
+        return f'{kind}: the same zero sharing re-randomises two different openings of one run', {'residuals': resid}
+    return None, {'openings': n}
+
+
+def zero_test_views(ctx):
+    rng = ctx.subrng('views')
+    cfgs = [(3, 1, False, 30), (3, 1, True, 30), (5, 2, False, 30), (5, 2, True, 8), (4, 1, False, 8)]
+    for (m, t, no_prss, k) in cfgs:
+        for kind in ('is_zero_public', 'reciprocal'):
+            for tspec in VIEW_TYPES:
+                if kind == 'reciprocal' and tspec[0] == 'int':
+                    continue
+                for a_val in (5, 7):
+                    for _ in range(ctx.scale(1, 6)):
+                        seed = rng.randrange(10**9)
+                        rep = {'kind': 'view', 'site': kind, 'type': list(tspec), 'a': a_val, 'm': m, 't': t,
+                               'no_prss': no_prss, 'k': k, 'seed': seed}
+                        try:
+                            msg, det = view_case(kind, tspec, a_val, m, t, no_prss, k, seed)
+                        except (Deadlock, PartyError) as exc:
+                            ctx.violation(f'C18: {kind} does not run: {str(exc)[:200]}', rep)
+                            return
+                        ctx.case(('view', kind, tuple(tspec), a_val, m, t, no_prss, k, seed), nontrivial=t >= 1)
+                        ctx.count('view:' + kind)
+                        if msg:
+                            rep.update(det)
+                            if 'without re-randomisation' in msg:
+                                rep['finding_key'] = KEY_VIEW
+                            ctx.violation('C18: ' + msg, rep)
+                            if 'finding_key' not in rep:
+                                return
+                            break
 
 
 def binom_two_sided_ok(ones, n, alpha=1e-9):
@@ -233,6 +405,7 @@ def run(ctx):
                 if len(ctx.samples) < 3:
                     ctx.sample({'site': site, 'cfg': [m, t, no_prss, k], 'input': a_val, 'max_mask_bits': mx.bit_length(),
                                 'window_bits': [win[0].bit_length(), win[1].bit_length()], 'runs': N})
+    zero_test_views(ctx)
     model = common.LeanDriver('Share').run(lines)
     ctx.compare('mask range rounding (runtime._randoms vs MpycV.Share.maskBound)', exps, model, metas)
 
@@ -242,6 +415,13 @@ def search(ctx):
 
 
 def replay(ctx, data):
+    if data.get('kind') == 'view':
+        try:
+            msg, _ = view_case(data['site'], tuple(data['type']), data['a'], data['m'], data['t'], data['no_prss'], data['k'],
+                               data['seed'])
+        except (Deadlock, PartyError) as exc:
+            return False, str(exc)[:200]
+        return msg is None, msg or 'ok: every opening is re-randomised by a fresh sharing of zero'
     if data.get('kind') == 'site':
         try:
             run_site(data['site'], data['a'], data['l'], data['f'], data['m'], data['t'], data['no_prss'], data['k'], data['seed'])
